@@ -25,7 +25,7 @@ def commands(path):
     walk(tree)
     return out
 
-REF = re.compile(r"\$\{([A-Za-z0-9_]+)\}")
+REF = re.compile(r"\$\{([A-Za-z0-9_.+/\-]+)\}")
 class Env:
     """variables: name -> python list of z3 String elements (CMake list; elements assumed non-empty and ';'-free)"""
     def __init__(self, vars): self.vars = dict(vars)
@@ -65,6 +65,111 @@ def as_arg(it):
     return it
 
 
+FALSE_CONSTANTS = ["", "0", "OFF", "NO", "FALSE", "N", "IGNORE", "NOTFOUND"]
+
+
+def truthy(e):
+    """if(<variable>) on one list element: true unless the value is a false constant (upper/lower case spellings) or ends in -NOTFOUND"""
+    if is_string_value(e):
+        v = e.as_string()
+        return BoolVal(not (v.upper() in FALSE_CONSTANTS or v.upper().endswith("-NOTFOUND")))
+    alts = [e == StringVal(c) for c in FALSE_CONSTANTS] + [e == StringVal(c.lower()) for c in FALSE_CONSTANTS if c.lower() != c]
+    return And(Not(Or(*alts)), Not(SuffixOf(StringVal("-NOTFOUND"), e)), Not(SuffixOf(StringVal("-notfound"), e)))
+
+
+EXISTS_F = Function("EXISTS", StringSort(), BoolSort())
+
+
+def condition(args, env, isdir, envlog):
+    """if(<condition>): NOT / AND / OR over IS_DIRECTORY, EXISTS, STREQUAL (quoted operands), DEFINED and variable truth.
+    -> python bool or z3 Bool"""
+    toks = list(args)
+    pos = [0]
+
+    def peek():
+        return toks[pos[0]] if pos[0] < len(toks) else None
+
+    def word(tk):
+        return tk[1] if tk is not None and tk[0] != CMakeParser.Quoted_argument else None
+
+    def lift(x):
+        return BoolVal(x) if isinstance(x, bool) else x
+
+    def simp(x):
+        x = simplify(x) if not isinstance(x, bool) else x
+        if isinstance(x, bool):
+            return x
+        return True if is_true(x) else (False if is_false(x) else x)
+
+    def atom():
+        tk = peek()
+        if tk is None:
+            raise Unsupported("empty condition")
+        w = word(tk)
+        if w in ("IS_DIRECTORY", "EXISTS") and pos[0] + 1 < len(toks):
+            pos[0] += 1
+            (a_,) = env.expand(*toks[pos[0]])
+            pos[0] += 1
+            t_ = as_arg(a_)
+            if w == "IS_DIRECTORY":
+                return isdir(t_)
+            envlog.append(("exists", t_, EXISTS_F(t_)))
+            return EXISTS_F(t_)
+        if w == "DEFINED" and pos[0] + 1 < len(toks):
+            pos[0] += 2
+            return toks[pos[0] - 1][1] in env.vars
+        nxt = word(toks[pos[0] + 1]) if pos[0] + 1 < len(toks) else None
+        if nxt == "STREQUAL" and pos[0] + 2 < len(toks) and tk[0] == CMakeParser.Quoted_argument and toks[pos[0] + 2][0] == CMakeParser.Quoted_argument:
+            (l_,) = env.expand(*tk)
+            (r_,) = env.expand(*toks[pos[0] + 2])
+            pos[0] += 3
+            lz, rz = as_arg(l_), as_arg(r_)
+            if is_string_value(lz) and is_string_value(rz):
+                return lz.as_string() == rz.as_string()
+            return lz == rz
+        if nxt in ("STREQUAL", "GREATER", "LESS", "EQUAL", "MATCHES", "IN_LIST", "VERSION_LESS", "VERSION_GREATER", "STRLESS", "STRGREATER"):
+            raise Unsupported("if(... %s ...)" % nxt)
+        if w is not None and REF.search(w) is None and not w.startswith("$") and w not in ("(", ")"):
+            # if(<variable|constant>)
+            pos[0] += 1
+            if w not in env.vars:
+                return w.upper() in ("1", "ON", "YES", "TRUE", "Y") or (w.isdigit() and int(w) != 0)
+            v_ = env.vars[w]
+            if len(v_) == 0:
+                return False
+            if len(v_) > 1:
+                return True                     # a list of several elements: "a;b" is no false constant
+            return truthy(v_[0])
+        raise Unsupported("if(" + " ".join(t[1] for t in toks) + ")")
+
+    def not_():
+        if word(peek()) == "NOT":
+            pos[0] += 1
+            x = not_()
+            return (not x) if isinstance(x, bool) else Not(x)
+        return atom()
+
+    def and_():
+        x = not_()
+        while word(peek()) == "AND":
+            pos[0] += 1
+            y = not_()
+            x = And(lift(x), lift(y))
+        return x
+
+    def or_():
+        x = and_()
+        while word(peek()) == "OR":
+            pos[0] += 1
+            y = and_()
+            x = Or(lift(x), lift(y))
+        return x
+    r = or_()
+    if pos[0] != len(toks):
+        raise Unsupported("if(" + " ".join(t[1] for t in toks) + ")")
+    return simp(r)
+
+
 def interpret_paths(cmds, fname, actual_args, extra_vars, isdir):
     """DFS over symbolic if-conditions: returns list of (path_condition, execute_process calls)"""
     results = []
@@ -89,6 +194,7 @@ def interpret_paths(cmds, fname, actual_args, extra_vars, isdir):
         env.vars["ARGN"] = list(actual_args[len(params):])
         argc = len(actual_args)
         pc = []; calls = []; nd = 0
+        envlog = []       # what the path assumed about the file system: ("exists", path term, z3 Bool) / ("strings", path term, z3 Bool non-empty, regex or None)
         skip = 0          # depth of disabled if-nesting
         stack = []        # per open if: was it taken?
         k = i + 1
@@ -97,23 +203,14 @@ def interpret_paths(cmds, fname, actual_args, extra_vars, isdir):
             if name == "if":
                 if skip: skip += 1; continue
                 words = [s_ for (t, s_) in args]
-                if words[0] == "IS_DIRECTORY" and len(args) == 2:
-                    (a_,) = env.expand(*args[1]); cond = isdir(as_arg(a_))
-                    take, decisions, nd = decide(cond, decisions, nd, pc)
-                elif len(words) == 3 and words[1] == "GREATER" and words[0] == "${ARGC}":
+                if len(words) == 3 and words[1] == "GREATER" and words[0] == "${ARGC}":
                     take = argc > int(words[2])
-                elif len(args) == 3 and words[1] in ("STREQUAL",) and args[0][0] == CMakeParser.Quoted_argument and args[2][0] == CMakeParser.Quoted_argument:
-                    (l_,) = env.expand(*args[0]); (r_,) = env.expand(*args[2])
-                    lz, rz = as_arg(l_), as_arg(r_)
-                    if is_string_value(lz) and is_string_value(rz):
-                        take = lz.as_string() == rz.as_string()
+                else:
+                    cond = condition(args, env, isdir, envlog)
+                    if cond is True or cond is False:
+                        take = cond
                     else:
-                        take, decisions, nd = decide(lz == rz, decisions, nd, pc)
-                elif len(args) == 1 and args[0][0] != CMakeParser.Quoted_argument and REF.fullmatch(words[0]) is None and not words[0].startswith("$"):
-                    # if(<variable>): true iff the variable holds a non-empty list whose value is not a false constant -- here: non-empty
-                    v_ = env.vars.get(words[0], [])
-                    take = len(v_) > 0
-                else: raise Unsupported("if(" + " ".join(words) + ")")
+                        take, decisions, nd = decide(cond, decisions, nd, pc)
                 if take: stack.append(True)
                 else: skip = 1
                 continue
@@ -154,6 +251,60 @@ def interpret_paths(cmds, fname, actual_args, extra_vars, isdir):
                 # the file system is environment: the glob result is an arbitrary list -- empty, or some non-empty list
                 nonempty, decisions, nd = decide(Bool("glob_%d_nonempty" % nd), decisions, nd, pc)
                 env.vars[args[1][1]] = [String("glob_%d_first" % nd)] if nonempty else []
+            elif name == "file" and args and args[0][1] == "STRINGS" and len(args) >= 3:
+                # file(STRINGS <file> <var> [REGEX <re>]): the file's content is environment -- the result is empty or some non-empty list
+                (f_,) = env.expand(*args[1])
+                rgx = None
+                for j in range(3, len(args) - 1):
+                    if args[j][1] == "REGEX" and args[j][0] != CMakeParser.Quoted_argument:
+                        rgx = args[j + 1][1]
+                        rgx = rgx[1:-1] if args[j + 1][0] == CMakeParser.Quoted_argument else rgx
+                b_ = Bool("strings_%d_%d_nonempty" % (k, nd))
+                envlog.append(("strings", as_arg(f_), b_, rgx))
+                nonempty, decisions, nd = decide(b_, decisions, nd, pc)
+                env.vars[args[2][1]] = [String("strings_%d_%d_first" % (k, nd))] if nonempty else []
+                if nonempty:
+                    pc.append(truthy(env.vars[args[2][1]][0]))      # some line: chosen by the environment, e.g. a true constant
+            elif name == "cmake_parse_arguments" and len(args) >= 4 and all(t != CMakeParser.Quoted_argument or "$" not in s_ for (t, s_) in args[:4]):
+                prefix = args[0][1]
+                kws = []
+                for j, kind_ in ((1, "opt"), (2, "one"), (3, "multi")):
+                    body = args[j][1][1:-1] if args[j][0] == CMakeParser.Quoted_argument else args[j][1]
+                    kws += [(w, kind_) for w in body.split(";") if w]
+                vals = flatten([x for (t, s_) in args[4:] for x in env.expand(t, s_)])
+                for (w, kind_) in kws:
+                    env.vars.pop(prefix + "_" + w, None)
+                    if kind_ == "opt":
+                        env.vars[prefix + "_" + w] = [StringVal("FALSE")]
+                cur = None
+                unparsed = []
+                for v in vals:
+                    hit = None
+                    for (w, kind_) in kws:
+                        if is_string_value(v):
+                            same = v.as_string() == w
+                        else:
+                            same, decisions, nd = decide(v == StringVal(w), decisions, nd, pc)
+                        if same:
+                            hit = (w, kind_)
+                            break
+                    if hit is not None:
+                        if hit[1] == "opt":
+                            env.vars[prefix + "_" + hit[0]] = [StringVal("TRUE")]
+                            cur = None
+                        else:
+                            cur = hit
+                            if hit[1] == "multi":
+                                env.vars[prefix + "_" + hit[0]] = []
+                        continue
+                    if cur is None:
+                        unparsed.append(v)
+                    elif cur[1] == "one":
+                        env.vars[prefix + "_" + cur[0]] = [v]
+                        cur = None
+                    else:
+                        env.vars[prefix + "_" + cur[0]] = env.vars.get(prefix + "_" + cur[0], []) + [v]
+                env.vars[prefix + "_UNPARSED_ARGUMENTS"] = unparsed
             elif name == "get_filename_component" and len(args) >= 3:
                 # get_filename_component(<var> <path> <mode>): an uninterpreted function of the path per mode -- whatever it
                 # computes, the result is not known to equal the path as given
@@ -171,7 +322,7 @@ def interpret_paths(cmds, fname, actual_args, extra_vars, isdir):
                     else: opts[mode].append(s_)
                 calls.append((cmd, opts))
             else: raise Unsupported("command " + name)
-        results.append((And(*pc) if pc else BoolVal(True), calls))
+        results.append((And(*pc) if pc else BoolVal(True), calls, envlog))
     run([])
     return results
 
@@ -228,7 +379,7 @@ def ob_argv(pid, label="C19.a"):
             paths = interpret_paths(cmds, "cminx_gen_rst", [inp, outp] + extra, {"CMINX_EXECUTABLE": [exe]}, lambda x: isdir_f(x))
             d = isdir_f(inp)
             bad = []
-            for (pc, calls) in paths:
+            for (pc, calls, envlog) in paths:
                 ok = spec_ok(calls[0], exe, inp, outp, extra, d) if len(calls) == 1 else BoolVal(False)
                 bad.append(And(pc, Not(ok)))
             s = Solver()
@@ -245,10 +396,21 @@ def ob_argv(pid, label="C19.a"):
                 import rx
                 vals = {str(v): rx.decode_z3_string(m.eval(v, model_completion=True)) for v in [inp, outp, exe] + extra}
                 isd = is_true(m.eval(d, model_completion=True))
-                ok, why = replay_cmake(work, vals, isd, k)
+                # what the failing path assumed about the file system (EXISTS, file(STRINGS)) is made true for the replay
+                actions = []
+                for (b_, (pc, calls, envlog)) in zip(bad, paths):
+                    if is_true(m.eval(b_, model_completion=True)):
+                        for ev in envlog:
+                            pth = rx.decode_z3_string(m.eval(ev[1], model_completion=True))
+                            if ev[0] == "exists":
+                                actions.append(("exists", pth, is_true(m.eval(ev[2], model_completion=True)), None))
+                            else:
+                                actions.append(("strings", pth, is_true(m.eval(ev[2], model_completion=True)), ev[3]))
+                        break
+                ok, why = replay_cmake(work, vals, isd, k, actions)
                 rep = os.path.join(vf.ROOT, "replays", pid, "argv_k%d.json" % k)
                 os.makedirs(os.path.dirname(rep), exist_ok=True)
-                json.dump({"property": pid, "obligation": label, "model": vals, "input_is_directory": isd, "replay": why}, open(rep, "w"), indent=1)
+                json.dump({"property": pid, "obligation": label, "model": vals, "input_is_directory": isd, "file_system_assumed": actions, "replay": why}, open(rep, "w"), indent=1)
                 if ok:
                     return dict(verdict=vf.VIOLATION, replay=rep, paths=nq, detail="|ARGN|=%d model %s dir=%s: %s" % (k, vals, isd, why))
                 return dict(verdict=vf.HARNESS_ERROR, paths=nq, detail="model did not reproduce under real cmake -P: %s %s" % (vals, why))
@@ -274,7 +436,7 @@ exit ${CMINX_FAKE_RC:-0}
 """
 
 
-def run_cmake(work, inp, outp, extra, rc=0):
+def run_cmake(work, inp, outp, extra, rc=0, cwd=None):
     """real cmake -P with CMINX_EXECUTABLE bound to an argv recorder -> (argv list or None, cmake exit code)"""
     d = os.path.join(work, "cmk")
     os.makedirs(d, exist_ok=True)
@@ -288,7 +450,7 @@ def run_cmake(work, inp, outp, extra, rc=0):
     script = os.path.join(d, "run.cmake")
     open(script, "w").write('set(CMINX_EXECUTABLE %s)\ninclude(%s)\ncminx_gen_rst(%s)\n' % (q(rec), q(CMAKE_FILE), " ".join(q(a) for a in [inp, outp] + list(extra))))
     env = dict(os.environ, CMINX_ARGV_OUT=out, CMINX_FAKE_RC=str(rc))
-    p = subprocess.run(["cmake", "-P", script], env=env, capture_output=True, text=True, timeout=60)
+    p = subprocess.run(["cmake", "-P", script], env=env, capture_output=True, text=True, timeout=60, cwd=cwd)
     argv = open(out).read().split("\n")[:-1] if os.path.exists(out) else None
     return argv, p.returncode
 
@@ -329,7 +491,39 @@ def validate_cmake(work, k):
     return True, ""
 
 
-def replay_cmake(work, vals, isd, k):
+def sample_of_regex(rgx):
+    """some text with a match of the (CMake ~ POSIX ERE) regular expression, or None"""
+    try:
+        import re._parser as sp
+    except ImportError:
+        import sre_parse as sp
+    import re as pyre
+
+    def gen(items):
+        out = ""
+        for (op, av) in items:
+            op = str(op)
+            if op == "LITERAL": out += chr(av)
+            elif op == "ANY": out += "x"
+            elif op in ("MAX_REPEAT", "MIN_REPEAT"): out += gen(av[2]) * av[0]
+            elif op == "SUBPATTERN": out += gen(av[3])
+            elif op == "BRANCH": out += gen(av[1][0])
+            elif op == "AT": pass
+            elif op == "IN":
+                first = av[0]
+                if str(first[0]) == "LITERAL": out += chr(first[1])
+                elif str(first[0]) == "RANGE": out += chr(first[1][0])
+                else: raise ValueError("character class")
+            else: raise ValueError(op)
+        return out
+    try:
+        t = gen(list(sp.parse(rgx)))
+        return t if pyre.search(rgx, t) else None
+    except Exception:
+        return None
+
+
+def replay_cmake(work, vals, isd, k, actions=()):
     if shutil.which("cmake") is None:
         return True, "cmake not installed: model accepted without replay"
     base = os.path.join(work, "cmk_replay")
@@ -345,6 +539,22 @@ def replay_cmake(work, vals, isd, k):
         open(real, "w").write("")
     os.symlink(real, inp)
     extra = [vals["x%d" % j] for j in range(k)]
-    argv, rc = run_cmake(work, inp, vals["output"], extra)
+    # the file system the failing path assumed: files named by the model (relative names: relative to the directory cmake runs in)
+    content = {}
+    for (kind, pth, flag, rgx) in actions:
+        full = os.path.normpath(os.path.join(base, pth))
+        if not full.startswith(base + os.sep):
+            return False, "the model names a file outside the replay directory (%r): not replayed" % pth
+        if kind == "exists":
+            if flag: content.setdefault(full, "")
+        elif flag:
+            line = sample_of_regex(rgx) if rgx is not None else "x"
+            if line is None:
+                return False, "no sample text for the regular expression %r: not replayed" % rgx
+            content[full] = content.get(full, "") + line + "\n"
+    for full, text in content.items():
+        os.makedirs(os.path.dirname(full), exist_ok=True)
+        open(full, "w").write(text)
+    argv, rc = run_cmake(work, inp, vals["output"], extra, cwd=base)
     good = spec_concrete(argv, inp, vals["output"], extra, isd)
-    return (not good), "real cmake passed argv %r (rc %s)" % (argv, rc)
+    return (not good), "real cmake passed argv %r (rc %s)%s" % (argv, rc, (" with files " + repr(sorted(content))) if content else "")
